@@ -157,7 +157,9 @@ Inductive subarg := SubNone | SubStr (n : N) | SubBad.
 Inductive hdrarg := HNone | HGood | HBadName.
 Inductive codearg := CNone | CInt (z : Z) | CNotInt.
 Inductive payload := PGood (n : N) (k : pkind) | PBad.
-Inductive raisek := RHTTPError (status : Z) | RHTTPStatus (status : Z) | RGeneric.
+(* RDisc: the responder raises WebSocketDisconnected(code) itself (e.g. it relays to another
+   socket that went away) although its own client may still be connected *)
+Inductive raisek := RHTTPError (status : Z) | RHTTPStatus (status : Z) | RGeneric | RDisc (c : option Z).
 
 Inductive op :=
 | OAccept (s : subarg) (h : hdrarg)
@@ -165,10 +167,11 @@ Inductive op :=
 | OSendText (p : payload) | OSendData (p : payload) | OSendMedia (bin : bool) (n : N)
 | ORecvText | ORecvData | ORecvMedia
 | ORaise (r : raisek)
-| OAdvance.
+| OAdvance
+| ORecvCancelled.   (* start receive_text(), cancel it if it parks (asyncio.wait_for timeout) *)
 
 (* value returned by an operation *)
-Inductive value := VNone | VText (n : N) | VBytes (n : N) | VMedia (n : N).
+Inductive value := VNone | VText (n : N) | VBytes (n : N) | VMedia (n : N) | VCancelled.
 Inductive result := Ret (v : value) | Raise (x : exc) | Blocked.
 
 Definition op_accept (c : cfg) (s : subarg) (h : hdrarg) (w : ws) : result * ws :=
@@ -331,8 +334,26 @@ Definition op_recv (fixed : bool) (kind : nat) (c : cfg) (w : ws) : result * ws 
     end
   end.
 
+(* would receive_text() suspend?  In pass-through mode it waits for the server; with a running
+   receiver it waits when nothing is queued; a stopped receiver (repaired code) never waits *)
+Definition would_park (c : cfg) (w : ws) : bool :=
+  if (cap c =? 0)%nat then true
+  else if negb (pump w) then false
+  else match queue w with [] => true | _ => false end.
+
+(* a receive that is cancelled while it is parked consumes nothing and leaves no trace (C18:
+   cancelling a pending receive is lossless); one that does not park is an ordinary receive *)
+Definition op_recv_cancelled (fixed : bool) (c : cfg) (w : ws) : result * ws :=
+  match require_accepted w with
+  | Some x => (Raise x, w)
+  | None => if would_park c w then (Ret VCancelled, w) else op_recv fixed 0 c w
+  end.
+
 Definition raise_exc (r : raisek) : exc :=
-  match r with RHTTPError s => XHTTPError s | RHTTPStatus s => XHTTPStatus s | RGeneric => XGeneric end.
+  match r with
+  | RHTTPError s => XHTTPError s | RHTTPStatus s => XHTTPStatus s | RGeneric => XGeneric
+  | RDisc c => XDisc (or1000 c)
+  end.
 
 Definition run_op (fixed : bool) (hr : Z -> bool) (c : cfg) (o : op) (w : ws) : result * ws :=
   match o with
@@ -346,6 +367,7 @@ Definition run_op (fixed : bool) (hr : Z -> bool) (c : cfg) (o : op) (w : ws) : 
   | ORecvMedia => op_recv fixed 2 c w
   | ORaise r => (Raise (raise_exc r), w)
   | OAdvance => (Ret VNone, advance c w)
+  | ORecvCancelled => op_recv_cancelled fixed c w
   end.
 
 (* a scripted responder: (operation, swallow the exception?) *)
